@@ -197,6 +197,30 @@ func runC20(c *Ctx, r *Report) {
 	// R3: min/max after each child store
 	minIdx, maxIdx := fieldIndex(trieT, "min"), fieldIndex(trieT, "max")
 	isBoundCmp := func(in ssa.Instruction, op token.Token, field int) bool {
+		// builtin form: t.min = min(t.min, char) / t.max = max(t.max, char)
+		if st, ok := in.(*ssa.Store); ok {
+			fa, ok := st.Addr.(*ssa.FieldAddr)
+			call, ok2 := st.Val.(*ssa.Call)
+			if !ok || !ok2 || fa.Field != field {
+				return false
+			}
+			bi, ok := call.Common().Value.(*ssa.Builtin)
+			want := map[token.Token]string{token.LSS: "min", token.GTR: "max"}[op]
+			if !ok || bi.Name() != want || len(call.Common().Args) != 2 {
+				return false
+			}
+			nField, nOther := 0, 0
+			for _, a := range call.Common().Args {
+				if ld, ok := a.(*ssa.UnOp); ok && ld.Op == token.MUL {
+					if fa2, ok := ld.X.(*ssa.FieldAddr); ok && fa2.Field == field && fa2.X == fa.X {
+						nField++
+						continue
+					}
+				}
+				nOther++
+			}
+			return nField == 1 && nOther == 1
+		}
 		ifi, ok := in.(*ssa.If)
 		if !ok {
 			return false
